@@ -1,6 +1,6 @@
 #!/bin/bash
 # runs every registered quick (or thorough) check against /repo in parallel and validates the evidence
-cd /verif
+cd "$(dirname "$0")"
 TIER=${1:-quick}
 ids=$(python3 -c "import json; print(' '.join(c['property_id'] for c in json.load(open('MANIFEST.json'))['checks']))")
 mkdir -p .work/logs
